@@ -10,18 +10,21 @@ pub fn take_except<F, T, Input, Error: ParseError<Input>>(
 ) -> impl FnMut(Input) -> IResult<Input, Input, Error>
 where
     F: Parser<Input, Input, Error>,
-    Input: Clone,
+    Input: Clone + Compare<T>,
     T: Clone + Compare<Input>,
 {
     move |input: Input| {
         let i = input.clone();
         let e = except.clone();
         match parser.parse(i) {
-            Ok((rest, value)) => match e.compare_no_case(value.clone()) {
-                CompareResult::Ok => Err(Err::Error(Error::from_error_kind(
-                    input,
-                    ErrorKind::TakeUntil,
-                ))),
+            // `value` is excepted only if it equals `except` (each is a prefix of the other).
+            Ok((rest, value)) => match (
+                e.compare_no_case(value.clone()),
+                value.compare_no_case(except.clone()),
+            ) {
+                (CompareResult::Ok, CompareResult::Ok) => Err(Err::Error(
+                    Error::from_error_kind(input, ErrorKind::TakeUntil),
+                )),
                 _ => Ok((rest, value)),
             },
             Err(e) => Err(e),
